@@ -314,6 +314,33 @@ theorem accept_height_first_unsafe :
     verifyERP cxIdx 5 mid 5 cxC = .ok := by
   refine ⟨by decide, by decide, by decide⟩
 
+/-! ### the expiry check must use the exact block timestamp
+
+`WF.txs_valid` (and with it `ancestor_in_reach`, the invariant and the theorems above) is stated
+with the comparison the code makes: `block.ts ≤ expiry ≤ block.ts + W` on the raw millisecond
+block timestamp, while `Accept` evicts `expiry < block.ts` on the same raw timestamp. The two
+must agree: `rounded_expiry_check_unsafe` shows that if the admission check compared against the
+block timestamp rounded down to the expiry granularity (1000 ms), a tx expiring at second 1000,
+included at t = 500, evicted when a block at t = 1100 is accepted, passes the rounded check again
+in a block at t = 1500 and `VerifyExpiryReplayProtection` accepts the repeat. The ties use
+millisecond timestamps around second boundaries and take "valid at its block" from the real
+`VerifyTimestamp`, so such a change is reported as `repeat-on-verified-chain`. -/
+
+def rxG : Block := { id := 0, parent := 999, ts := 0, height := 0, txs := [] }
+def rxA : Block := { id := 1, parent := 0, ts := 500, height := 1, txs := [⟨7, 1000⟩] }
+def rxB : Block := { id := 2, parent := 1, ts := 1100, height := 2, txs := [] }
+def rxC : Block := { id := 3, parent := 2, ts := 1500, height := 3, txs := [⟨7, 1000⟩] }
+def rxIdx : Index := fun i =>
+  if i = 0 then some rxG else if i = 1 then some rxA else if i = 2 then some rxB else none
+
+theorem rounded_expiry_check_unsafe :
+    let v := accept (accept (newWindow rxIdx 5000 3 rxG) rxA) rxB
+    verifyERP rxIdx 5000 v 5 rxC = .ok ∧                           -- the repeat of tx 7 is not seen
+    txsValidAt 5000 rxC = false ∧                                  -- exact check: 1500 ≤ 1000 fails
+    (decide (rxC.ts / 1000 * 1000 ≤ (1000 : Int)) = true) ∧        -- rounded check: 1000 ≤ 1000 passes
+    blockContains rxA 7 = true := by
+  refine ⟨by decide, by decide, by decide, by decide⟩
+
 /-! Non-vacuity: a one-block tree is well formed and the fresh window over it is reachable. -/
 def g0 : Block := { id := 0, parent := 999, ts := 0, height := 0, txs := [] }
 def U0 : Universe := fun i => if i = 0 then some g0 else none
